@@ -127,6 +127,10 @@ func corruptions(r *rng.R, root *model.Node, path string) []string {
 		return b.String()
 	}
 	var out []string
+	// something in front of the leading sigil (root markers of other path languages, blanks, punctuation): not a path
+	for _, pre := range []string{"$", "@", "/", " ", "\t", "~", "^", "*", "&", "?", "!", "\\", "$$", "$root", "this", "root", "0", "\x00", "\ufeff"} {
+		out = append(out, pre+path)
+	}
 	out = append(out, path+".", path+"#", path[1:], "."+path, "#"+path, path+".zz", path+"#0", path+"#9", path+".a", path+".id", path+".key#0", path+"#1", path+"#2.a", path+".0", path+".x.a.b")
 	for i := range segs {
 		c := append([]model.Seg{}, segs...)
